@@ -11,6 +11,7 @@
 //	      | r h<name> <ok|notexist|isdir|notdir|other> h<content>
 //	      | l h<prefix> <context kind> <error surfaced> <k> {h<name>}
 //	      | c h<dst> h<src> <ok>
+//	      | wo h<name> <ok> | ww <writer> h<data> <ok> | wc <writer> <ok>   (writers numbered by successful open)
 //	multi   <n> {<root> <bucket> op} <confined> 6 x (<m> {h<relpath> <d|f> h<content>})
 //	resolve h<name> <in h<rel> | out>
 //	svc     <upload|merge|chart> ... (see caseSvc)
@@ -461,6 +462,7 @@ func caseOps() {
 	nops := 0
 	var known []string
 	collide, overwrite, emptyc, cutmid := false, false, false, false
+	var writers []io.WriteCloser
 	write := func(name string, c []byte) {
 		ok := doWrite(s.b, name, c)
 		for _, kn := range known {
@@ -498,7 +500,94 @@ func caseOps() {
 		nops++
 	}
 	for nops < target {
-		switch k := rnd.Intn(24); {
+		switch k := rnd.Intn(26); {
+		case k >= 24:
+			// writers as handles: the services close every writer twice (explicit Close + deferred Close),
+			// and several writers are open at the same time (concurrent uploads, the worker's copies).
+			// Discipline: distinct objects, nothing else touches them while a writer is open.
+			a, b := genName(known), genName(known)
+			openW := func(name string) int {
+				w, err := func() (w io.WriteCloser, err error) {
+					defer func() {
+						if recover() != nil {
+							err = errors.New("panic")
+						}
+					}()
+					return s.b.Object(name).NewWriter(ctx)
+				}()
+				ops = append(ops, "wo", HS(name), B(err == nil))
+				nops++
+				if err != nil {
+					collide = true
+					return -1
+				}
+				writers = append(writers, w)
+				known = append(known, name)
+				return len(writers) - 1
+			}
+			writeW := func(h int) {
+				if h < 0 {
+					return
+				}
+				data := genContent()
+				n, err := writers[h].Write(data)
+				ops = append(ops, "ww", I(int64(h)), H(data), B(err == nil && n == len(data)))
+				nops++
+			}
+			closeW := func(h int) {
+				if h < 0 {
+					return
+				}
+				err := writers[h].Close()
+				ops = append(ops, "wc", I(int64(h)), B(err == nil))
+				nops++
+			}
+			switch rnd.Intn(4) {
+			case 0: // one writer, closed twice, written to after Close
+				h := openW(a)
+				writeW(h)
+				writeW(h)
+				closeW(h)
+				closeW(h)
+				if rnd.Bool() {
+					writeW(h)
+				}
+				read(a)
+				out.Note("ops:writer-closed-twice")
+			default: // a double Close first, then two writers open at the same time
+				h0 := openW(a)
+				writeW(h0)
+				closeW(h0)
+				closeW(h0)
+				if b == a {
+					b = a + "2"
+				}
+				c := genName(known)
+				if c == a || c == b {
+					c = a + "3"
+				}
+				h1 := openW(b)
+				h2 := openW(c)
+				for i := 2 + rnd.Intn(4); i > 0; i-- {
+					if rnd.Bool() {
+						writeW(h1)
+					} else {
+						writeW(h2)
+					}
+				}
+				closeW(h1)
+				if rnd.Bool() {
+					closeW(h1)
+				}
+				closeW(h2)
+				if rnd.Bool() {
+					closeW(h2)
+				}
+				read(a)
+				read(b)
+				read(c)
+				out.Note("ops:two-writers-open-after-double-close")
+			}
 		case k < 9:
 			write(genName(known), genContent())
 		case k < 14:
